@@ -1,0 +1,108 @@
+//go:build verif
+
+package engine
+
+//@ ---------------------------------------------------------------- declarations of a text: dynamic/1, multifile/1, discontiguous/1 (C20)
+//@ -- The three built-in directives are the three function literals of VM.directive (in source order: dynamic, multifile,
+//@ -- discontiguous), each handed to text.forEachUserDefined together with the directive's argument.
+
+//@ func (*VM).directive$1
+//@   property C20
+//@   requires u != nil
+//@   modifies u.dynamic, u.public
+//@   ensures[dynamic-declares-the-predicate-dynamic-and-public] u.dynamic && u.public
+
+//@ func (*VM).directive$2
+//@   property C20
+//@   requires u != nil
+//@   modifies u.multifile
+//@   ensures[multifile-declares-the-predicate-multifile] u.multifile
+
+//@ func (*VM).directive$3
+//@   property C20
+//@   requires u != nil
+//@   modifies u.discontiguous
+//@   ensures[discontiguous-declares-the-predicate-discontiguous] u.discontiguous
+
+//@ -- pikey(c, q): q is the key the predicate indicator c = Name/Arity is filed under
+//@ spec fun pikey(c Compound, q procedureIndicator) bool = Compound.Arg(c, 0) is Atom && Compound.Arg(c, 1) is Integer &&
+//@     q.name == (Compound.Arg(c, 0) as Atom) && q.arity == (Compound.Arg(c, 1) as Integer)
+
+//@ func (*text).forEachUserDefined
+//@   property C20
+//@   nosafety
+//@   loop 1 invariant true
+//@   bind fu = engine.Compound.Functor#1
+//@   bind ar = engine.Compound.Arity#1
+//@   at-call dynamic requires[the-declaration-is-applied-by-the-function-given] fn == f
+//@   at-call dynamic requires[only-a-name-slash-arity-term-names-a-predicate] called(fu) && fu == atomSlash && called(ar) && ar == 2
+//@   at-call dynamic requires[the-declaration-goes-to-the-entry-of-the-text-for-exactly-the-named-predicate] called(fu) && (t.clauses != nil ==>
+//@       forall q procedureIndicator :: pikey(argof(fu, 0), q) ==> has(t.clauses, q) && t.clauses[q] == a0)
+//@   at-call InstantiationError requires[no-environment] a0 == nil
+//@   at-call typeError requires[a-term-that-is-not-a-predicate-indicator-is-a-type-error] a0 == validTypePredicateIndicator && a2 == nil
+//@   at-call typeError#1 requires[the-culprit-is-the-term-itself] called(fu) && a1 == argof(fu, 0)
+//@   at-call typeError#2 requires[the-culprit-is-the-term-itself] called(fu) && a1 == argof(fu, 0)
+//@   at-call typeError#3 requires[the-culprit-is-the-term-itself] called(fu) && a1 == argof(fu, 0)
+//@   at-call typeError#1 requires[a-compound-that-is-not-name-slash-arity-is-a-type-error] called(fu) && (fu != atomSlash || (called(ar) && ar != 2))
+//@   at-call typeError#2 requires[an-arity-that-is-neither-unbound-nor-an-integer-is-a-type-error] called(fu) && Compound.Arg(argof(fu, 0), 0) is Atom &&
+//@       !(Compound.Arg(argof(fu, 0), 1) is Variable) && !(Compound.Arg(argof(fu, 0), 1) is Integer)
+//@   at-call typeError#3 requires[a-name-that-is-neither-unbound-nor-an-atom-is-a-type-error] called(fu) &&
+//@       !(Compound.Arg(argof(fu, 0), 0) is Variable) && !(Compound.Arg(argof(fu, 0), 0) is Atom)
+//@   at-call typeError#4 requires[an-element-that-is-neither-unbound-nor-compound-is-a-type-error-with-itself-as-culprit] !called(fu) && !(a1 is Variable) && !(a1 is Compound)
+//@   at-call InstantiationError#1 requires[an-unbound-element-is-an-instantiation-error] !called(fu)
+//@   at-call InstantiationError#2 requires[an-unbound-name-is-an-instantiation-error] called(fu) && fu == atomSlash && Compound.Arg(argof(fu, 0), 0) is Variable
+//@   at-call InstantiationError#3 requires[an-unbound-arity-is-an-instantiation-error] called(fu) && fu == atomSlash && Compound.Arg(argof(fu, 0), 0) is Atom && Compound.Arg(argof(fu, 0), 1) is Variable
+//@   bind te1 = typeError#1
+//@   bind te2 = typeError#2
+//@   bind te3 = typeError#3
+//@   bind te4 = typeError#4
+//@   bind ie1 = InstantiationError#1
+//@   bind ie2 = InstantiationError#2
+//@   bind ie3 = InstantiationError#3
+//@   ensures[the-type-error-made-is-the-error-returned] (called(te1) ==> result == te1) && (called(te2) ==> result == te2) && (called(te3) ==> result == te3) && (called(te4) ==> result == te4)
+//@   ensures[the-instantiation-error-made-is-the-error-returned] (called(ie1) ==> result == ie1) && (called(ie2) ==> result == ie2) && (called(ie3) ==> result == ie3)
+//@   at-call (*anyIterator).Err requires[a-list-that-does-not-end-properly-is-reported] true
+//@   at-store anyIterator.Any requires[the-argument-of-the-directive-is-what-is-walked] v == pi
+
+//@ ---------------------------------------------------------------- consult/1: every file named is loaded, in order, under the caller's context (C13, C20)
+
+//@ func Consult
+//@   property C13 C20
+//@   nosafety
+//@   trusted-frame
+//@   frozen vm, k, env
+//@   loop 1 invariant true
+//@   bind cur = (*ListIterator).Current#1
+//@   bind lerr = (*ListIterator).Err#1
+//@   bind d = Delay#1
+//@   at-store ListIterator.List requires[the-argument-is-walked-as-a-list-of-files] v == files
+//@   at-store ListIterator.Env requires[in-the-caller-s-environment] v == env
+//@   at-call append requires[the-files-are-kept-in-the-order-of-the-list] a0 == filenames && len(a1) == 1 && a1[0] == cur
+//@   at-call Delay requires[an-argument-that-is-not-a-list-is-the-one-file-to-load] called(lerr) && (lerr != nil ==> len(filenames) == 1 && filenames[0] == files)
+//@   ensures[the-loading-is-delayed-so-that-it-runs-under-the-context-of-the-caller-s-run] called(d) && result == d
+
+//@ func Consult$1
+//@   property C13 C20
+//@   nosafety
+//@   checks only at-call at-call-missing maintains onk onk-missing post
+//@   loop 1 invariant true
+//@   bind eerr = (*VM).ensureLoaded#1
+//@   bind ep = Error#1
+//@   at-call (*VM).ensureLoaded requires[each-file-is-loaded-once-by-this-machine-under-the-context-of-the-run-and-named-in-the-caller-s-environment] a0 == vm && a1 == ctx && a3 == env
+//@   at-call (*VM).ensureLoaded requires[the-file-loaded-is-the-next-one-of-the-list] a2 == local(filename, Term)
+//@   loop 1 maintains[no-file-is-passed-over-after-a-failed-load] called(eerr) && eerr == nil
+//@   at-call Error requires[a-failed-load-is-the-error-of-consult] called(eerr) && eerr != nil && a0 == eerr
+//@   ensures[a-failed-load-ends-consult-with-its-error] called(eerr) && eerr != nil ==> called(ep) && result == ep
+//@   onk[goes-on-in-the-caller-s-environment-only-when-no-load-failed] kenv == env && !(called(eerr) && eerr != nil)
+
+//@ ---------------------------------------------------------------- term expansion while loading: user code runs under the caller's context (C13, C20)
+
+//@ func expand
+//@   property C13 C20
+//@   nosafety
+//@   bind xp = Call#1
+//@   bind xok, xerr = (*Promise).Force#1
+//@   at-call Call requires[term-expansion-2-is-called-by-this-machine-in-the-given-environment] a0 == vm && a3 == env
+//@   at-call (*Promise).Force requires[the-user-s-expansion-runs-under-the-caller-s-context] called(xp) && a0 == xp && a1 == ctx
+//@   at-call expandDCG requires[the-term-given-is-what-is-translated-as-a-grammar-rule] a0 == term && a1 == env
+//@   ensures[an-error-or-a-cancellation-of-the-user-s-expansion-is-reported] called(xerr) && xerr != nil ==> result1 == xerr
